@@ -105,7 +105,8 @@ class Check:
         for t in tops:
             roots.append({"top": t, "kind": rng.choice(["rel", "rel", "dotrel", "abs"]),
                           # ignore-file handling switched on although no ignore file exists: must change nothing
-                          "ign": rng.choice(["", "", "", "", "hg", "docker", "hgignore dockerignore", "git"]),
+                          # likewise `archives` although no file is an archive (some directories have archive-like names)
+                          "ign": rng.choice(["", "", "", "", "hg", "docker", "hgignore dockerignore", "git", "archives", "archives"]),
                           # depth windows anywhere in the tree: a level miscounted after a fault only shows at a window border
                           "mind": 0 if rng.random() < 0.4 else rng.randint(1, maxlvl + 1), "maxd": 0 if rng.random() < 0.4 else rng.randint(1, maxlvl + 2),
                           "mode": rng.choice(["bfs", "dfs"])})
@@ -135,6 +136,8 @@ class Check:
         world = gen.gen_tree(rng, tops, max_entries=rng.choice([6, 12, 25, 40]), max_depth=rng.choice([3, 4, 6]),
                              kinds={"file": 6, "dir": 6, "symlink": 1, "fifo": 0.3, "sock": 0.2}, adversarial=rng.choice([0, 0.2]))
         roots = self.gen_roots(rng, world, tops)
+        if any("archives" in r["ign"] for r in roots):
+            gen.zipify(rng, world, keep=set(tops))
         _, env = gen.gen_env(rng, world)
         # directories the walk will open
         opened = []
@@ -162,7 +165,11 @@ class Check:
                         faults.append({"fail": {"call": call, "path": c, "errno": "EACCES"}, "unsearchable_parent": d})
                 continue
             if kind == "opendir":
-                faults.append({"fail": {"call": "opendir", "path": d, "errno": rng.choice(errs)}})
+                e = rng.choice(errs)
+                faults.append({"fail": {"call": "opendir", "path": d, "errno": e}})
+                if e != "ENOTDIR" and rng.random() < 0.7:
+                    # a directory that cannot be opened for listing cannot be opened as a file either
+                    faults.append({"fail": {"call": "open", "path": d, "errno": e}})
             elif kind == "realpath_fail":
                 # the directory is gone / beyond an unsearchable component: every way of reaching it fails alike
                 # (a failing realpath alone would not make a directory unlistable: a walker need not canonicalise)
